@@ -1,5 +1,6 @@
 import Emerge.Proofs.GrammarLang
 import Emerge.Proofs.EbnfTable
+import Emerge.Proofs.EbnfEval
 /-
   C01 — EBNF-to-grammar translation preserves the language of every rule.
 
@@ -18,9 +19,16 @@ import Emerge.Proofs.EbnfTable
   (`C01_table_operator`).  Hypotheses, stated in the theorems: a newly synthesised name is unused
   (the code tries |NT|+1 numbered candidates; injectivity of decimal printing is not proved), and a
   rule's name is not a synthesised name - exactly what finding F2b violates in the code as it is.
-  NOT proved: that the value a `rhs` sub-tree evaluates to denotes the EBNF meaning of that
-  sub-tree (the fold over the 35 actions); decided per specification by the correspondence and
-  the bounded language comparison of the check.
+  The right-hand sides: `Rhs` is the tree of a right-hand side, `denote` its documented meaning,
+  `evalRhs` the semantic actions 23-31 over it (children first, left to right, the table threaded
+  through; `C01_actions`: each case IS the corresponding case of `Ebnf.action`, by `rfl`).
+  `C01_eval`: the alternatives the evaluation returns denote, in the least fixed point of any later
+  well-formed table extending the one reached - the final table of the specification - exactly the
+  meaning of the tree; `C01_rule_lang`: the language of a rule's name is the union of the meanings
+  of its right-hand sides.  What remains outside the theorems: that the LR driver calls the
+  actions in the order of the tree (C18's theorems, generic), the hypotheses above (fresh names, no
+  clash with synthesised names - the place of findings F14/F2b), and the tie of `Ebnf.action` to
+  the Go code (correspondence + bounded language comparison per generated specification).
 -/
 namespace Emerge.Props.C01
 open Emerge Emerge.Ebnf
@@ -234,6 +242,52 @@ theorem C01_table_operator {t : SymTab} (h : TableOk t) {s : Strings} {e : MemoE
     (hne : e.get k ≠ "") (w : List String) :
     L t.prods (e.get k) w ↔ shapeLang k (langStrings (L t.prods) s) w :=
   C01_operator t.prods k (e.get k) s (h.shape s e hm k hne).2 w
+
+/-! ### right-hand sides: the actions compute the EBNF meaning -/
+
+/-- **The semantic actions compute the EBNF meaning of a right-hand side** (see `evalRhs_sound`). -/
+theorem C01_eval (cfg : Cfg) (names : List (String × String)) (r : Rhs) (t : SymTab)
+    (ht : TableOk t) (hf : FreshNames cfg names t r) :
+    TableOk (evalRhs cfg names t r).1 ∧ Ext t (evalRhs cfg names t r).1 ∧
+    ∀ t'', TableOk t'' → Ext (evalRhs cfg names t r).1 t'' →
+      ∀ w, langStrings (L t''.prods) (evalRhs cfg names t r).2 w ↔ denote (L t''.prods) r w :=
+  evalRhs_sound cfg names r t ht hf
+
+/-- **The language of a rule's name is the union of the meanings of its right-hand sides.** -/
+theorem C01_rule_lang (P : List GProd) (A : String) (rules : List (Rhs × Strings))
+    (hmean : ∀ rs, rs ∈ rules → ∀ w, langStrings (L P) rs.2 w ↔ denote (L P) rs.1 w)
+    (hprods : ∀ α, ⟨A, α⟩ ∈ P ↔ ∃ rs, rs ∈ rules ∧ α ∈ rs.2) (w : List String) :
+    L P A w ↔ ∃ rs, rs ∈ rules ∧ denote (L P) rs.1 w := rule_lang P A rules hmean hprods w
+
+/-- adding a rule's productions keeps the table well-formed, only extends it, and adds exactly those productions -/
+theorem C01_table_rules {t : SymTab} (h : TableOk t) (A : String) (hA : A ∈ t.nonTerminals)
+    (hclash : ∀ s e, (s, e) ∈ t.memo → ∀ k, e.get k ≠ A) (s : Strings) :
+    TableOk ((s.map fun α => (⟨A, α⟩ : GProd)).foldl addProduction t) ∧
+    Ext t ((s.map fun α => (⟨A, α⟩ : GProd)).foldl addProduction t) ∧
+    (∀ q, q ∈ ((s.map fun α => (⟨A, α⟩ : GProd)).foldl addProduction t).prods ↔ q ∈ t.prods ∨ ∃ α ∈ s, q = ⟨A, α⟩) :=
+  h.addRules A hA hclash s
+
+/-- `evalRhs` is `Ebnf.action`, case by case (the model of the 35 semantic actions that the correspondence ties to
+    `spec.Parse`): operators, juxtaposition, alternation, trailing bar, atoms and the rule action. -/
+theorem C01_actions (cfg : Cfg) (file : String) (names predefs : List (String × String)) (t : SymTab) (p0 p1 p2 : Option Pos)
+    (x y : Val) (s s1 s2 : Strings) (a A : String) :
+    action cfg file names predefs t 31 [⟨.term a, p0⟩] = .ok (t, .strings [[.t a]]) ∧
+    action cfg file names predefs t 30 [⟨.nonterm A, p0⟩] = .ok (t, .strings [[.nt A]]) ∧
+    action cfg file names predefs t 23 [⟨.strings s1, p0⟩, ⟨.strings s2, p1⟩] =
+      .ok (t, .strings (s1.flatMap fun α => s2.map fun β => α ++ β)) ∧
+    action cfg file names predefs t 28 [⟨.strings s1, p0⟩, ⟨x, p1⟩, ⟨.strings s2, p2⟩] = .ok (t, .strings (s1 ++ s2)) ∧
+    action cfg file names predefs t 29 [⟨.strings s1, p0⟩, ⟨x, p1⟩] = .ok (t, .strings (s1 ++ [[]])) ∧
+    (∀ k : Kind, action cfg file names predefs t (match k with | .group => 24 | .opt => 25 | .star => 26 | .plus => 27)
+        [⟨x, p0⟩, ⟨.strings s, p1⟩, ⟨y, p2⟩] =
+      .ok ((closureAction cfg names t s k).1, .strings [[.nt (closureAction cfg names t s k).2]])) ∧
+    action cfg file names predefs t 20 [⟨.nonterm A, p0⟩, ⟨x, p1⟩, ⟨.strings s, p2⟩] =
+      .ok ((s.map fun α => (⟨A, α⟩ : GProd)).foldl addProduction t, .prods (s.map fun α => (⟨A, α⟩ : GProd))) :=
+  ⟨rfl, rfl, rfl, rfl, rfl, fun k => by cases k <;> rfl, rfl⟩
+
+/-- Non-vacuity of `C01_eval`: `{ "a" } [ y ] |` evaluated on the empty table - the synthesised names are fresh. -/
+example : FreshNames Cfg.current terminalNames {} (.altEmpty (.cat (.op .star (.term "a")) (.op .opt (.nonterm "y")))) := by
+  simp only [FreshNames, evalRhs]
+  exact ⟨⟨trivial, by decide, by decide⟩, trivial, by decide, by decide⟩
 
 /-- Non-vacuity: `{ "a" }` followed by `[ x ]` on an empty table - both names are fresh, the invariant holds. -/
 example : TableOk (closureAction Cfg.current terminalNames
